@@ -234,9 +234,8 @@ Proof. intros HI Ht. destruct e; cbn in Ht; cbn [step_ev].
   - unfold respond. destruct (find _ (incoming_requests s)) as [v|]; [|apply untouched_refl].
     pose proof (send_message_untouched_g (Resp j k) (v_remote v) (if v_mtype v =? 1 then 7 else 8) 69 (v_tok v) maxre s r HI ltac:(lia)) as U.
     destruct (C14refuse.send_message l _ _ _ _ _ _ s) as [s1 o1]. cbn [fst snd] in U.
-    destruct last; destruct (alive k s1) eqn:Ea; cbn [fst snd]; try exact U.
-    + unfold stop_responder. rewrite Ea. cbn [fst snd]. apply (untouched_trans r s s1); [exact U|]. repeat split.
-    + apply (untouched_trans r s s1); [exact U|]. repeat split. Qed.
+    destruct last; [|exact U]. destruct (alive k s1) eqn:Ea; cbn [fst snd]; [|exact U].
+    unfold stop_responder. rewrite Ea. cbn [fst snd]. apply (untouched_trans r s s1); [exact U|]. repeat split. Qed.
 End Frame.
 
 (* ---------------------------------------------------------------- the trichotomy and the liveness bound for a remote that is not refused *)
